@@ -66,7 +66,7 @@ func evmWeights() map[string]int {
 
 func checkC01(c *Ctx) {
 	c.rule = "each generated history (all eight transaction types incl. contracts, valid and invalid, absentee/evidence patterns) is executed on a primary replica and replayed on twin replicas that differ in process, data directory, start time (>2s later), TZ, GOMAXPROCS, GOGC and build flavour (-race); per-call comparison of DeliverTx code/data/gas, validator updates, app hash, Info; distinct = distinct final app hash"
-	n := c.N(12, 150)
+	n := c.N(12, 400)
 	type prim struct {
 		hr *HistRun
 		o  *HistOpts
@@ -221,7 +221,7 @@ func contractsStr(d *Dump) string {
 func checkC05(c *Ctx) {
 	c.rule = "erasure twin: replica A executes generated blocks in which 30-70% of the transactions are intended-invalid (one defect each from the catalogue, incl. EVM reverts / out-of-gas); replica A' executes the same blocks with exactly the transactions that failed on A removed; after every commit the semantic state dumps (all accounts, stakes, unbonding stakes, rewards, proposals, parameters, contract code and storage) and the results of the surviving transactions must be equal; distinct = distinct (history, block) pairs that contained at least one failed transaction"
 	c.assumptions = []string{"entirely empty account records (materialised by looking up a receiver) are not state in the sense of the property", "the sum of EVM gas limits per block stays below the block gas pool"}
-	n := c.N(16, 200)
+	n := c.N(16, 600)
 	c.Parallel(n, 0, func(i int) {
 		o := twinOpts(c, "C05", i)
 		o.Gen.InvalidPct = 30 + c.Rng("c05pct", i).Intn(41)
@@ -332,7 +332,7 @@ func checkC05(c *Ctx) {
 
 func checkC07(c *Ctx) {
 	c.rule = "restart twin: a continuous replica and a replica that is stopped (graceful Stop, process exit) and restarted from its data directory at chosen block boundaries execute the same history; Info after each restart and every later consensus response / app hash must be equal; modes: one restart at each single boundary, restarts at every boundary, random subsets; distinct = distinct (history, restart set)"
-	n := c.N(10, 60)
+	n := c.N(10, 150)
 	c.Parallel(n, 0, func(i int) {
 		rng := c.Rng("c07", i)
 		o := twinOpts(c, "C07", i)
